@@ -355,6 +355,10 @@ def check_eval_and_spider(ctx):
     zero = any(isinstance(s, ast.Assign) and ast.unparse(s.value) == "numpy.zeros(dom @ cod)" for s in sp.body)
     ctx.ob("R09.4", TEN + ".Spider.__init__:delta", ok and zero, found=ast.unparse(loop)[:120] if loop else None,
            required="zeros(dom @ cod) with exactly the all-equal index entries set to 1", mod=TEN, node=sp, sig="spider-delta")
+    tz = m.func(TEN + ".Tensor.zeros")
+    ctx.analysed(TEN + ".Tensor.zeros")
+    shape.match(ctx, "R09.2", TEN + ".Tensor.zeros", ret_expr(tz.body), "Tensor(dom, cod, Tensor.np.zeros(dom @ cod))", dict(zip([x.arg for x in tz.args.args], ("dom", "cod"))), mod=TEN, node=tz, sig="zeros",
+                required="the zero tensor of that type (the unit the images of a sum are added to): one axis per wire of dom then of cod")
     ds = m.func(TEN + ".Diagram.spiders")
     ctx.analysed(TEN + ".Diagram.spiders")
     a_ = [x.arg for x in ds.args.args]
